@@ -7,7 +7,7 @@ from anytree import AnyNode, Node, NodeMixin
 from anytree.exporter import DictExporter
 from anytree.importer import DictImporter
 
-from .. import forest, shapes, strategies, values
+from .. import forest, refs, shapes, strategies, values
 from ..core import Violation
 
 PROP_ID = "C10"
@@ -175,6 +175,14 @@ def check_case(case, acc):
     if case.get("kind") == "dict":
         return check_dict_case(case, acc)
     nodes = build(case)
+    _tree_once(case, acc, nodes)
+    for op in case.get("mutations", []):
+        refs.mutate_tree(nodes, op)
+        _tree_once(case, acc, nodes)
+        acc.tag("rechecked_after_mutation")
+
+
+def _tree_once(case, acc, nodes):
     start = nodes[case["start"]]
     attriter = attriter_of(case["attriter"])
     childiter = childiter_of(case["childiter"])
@@ -212,7 +220,7 @@ def check_case(case, acc):
     plain = ref_export(start, attriter, childiter, dict, maxlevel)
     if again != plain:
         raise Violation("export-import-export", "export(import_(export(t))) differs from export(t)")
-    height = shapes.shape_height(forest.to_tuple(case["shape"]))
+    height = start.height
     inner_rich = any(len(case["attrs"][i]) >= 2 for i, n in enumerate(nodes) if n.children)
     nondefault = bool(kwargs)
     acc.nontrivial(height >= 2 and inner_rich and nondefault)
@@ -286,6 +294,7 @@ def random_cases(draw):
         "childiter": draw(st.sampled_from(["list", "reversed", "filter"])),
         "dictcls": draw(st.sampled_from(["dict", "OrderedDict", "MyDict"])),
         "maxlevel": draw(st.one_of(st.none(), st.integers(0, 6))),
+        "mutations": draw(strategies.tree_mutations(max_ops=2, rename_values=st.integers(0, 5))),
     }
 
 
